@@ -53,6 +53,8 @@ pub struct Take {
     pub drop_self: Option<String>,
     pub closure_contracts: Vec<(String, String)>,
     pub path_rewrites: Vec<(String, String)>,
+    /// R18: a single-fn trait impl (Drop) is emitted as an inherent method with this name
+    pub as_inherent: Option<String>,
     pub source: Option<String>,
     /// expect: the item's normalised source text must equal this text (else extraction problem)
     pub expect: Option<String>,
@@ -197,6 +199,7 @@ pub fn parse(text: &str, cdir: &str) -> Result<Vec<Dir>, String> {
                         if parts.len() != 2 { return Err(format!("spec line {}: @@.rewrite-path A B", i)); }
                         take.path_rewrites.push((parts[0].to_string(), parts[1].to_string()));
                     }
+                    "as-inherent" => take.as_inherent = Some(arg.to_string()),
                     "drop-self" => take.drop_self = Some(arg.to_string()),
                     "closure-contract" => take.closure_contracts.push((arg.to_string(), b)),
                     "drop-derive" => take.drop_derives = arg.split(',').map(|s| s.trim().to_string()).collect(),
